@@ -359,6 +359,25 @@ def lib_np_all(eng, st, args, kw, node):
 
 
 LIB[("numpy", "all")] = lib_np_all
+
+
+def _np_const_array(value, tag):
+    def lib(eng, st, args, kw, node):
+        """np.zeros(n) / np.ones(n) with an integer n >= 0: a fresh float array of n equal elements"""
+        if len(args) == 1 and not kw and args[0].t[0] == "int" and eng.ctx.float_mode != "fp":
+            eng.ctx.tags.add(tag)
+            eng.safety(st, args[0].z >= 0, "negative-dimension", node)
+            v = st.new_seq(("float",), "nd", args[0].z, z3.K(z3.IntSort(), z3.RealVal(value)), "npconst")
+            if not hasattr(eng.ctx, "const_arrays"):
+                eng.ctx.const_arrays = {}
+            eng.ctx.const_arrays[v.z.get_id()] = (value, v.z)      # a fresh, not yet mutated array of equal elements
+            return v
+        raise Unsupported(f"np.zeros / np.ones of {[a.t for a in args]}")
+    return lib
+
+
+LIB[("numpy", "zeros")] = _np_const_array(0, "AX_numpy_zeros")
+LIB[("numpy", "ones")] = _np_const_array(1, "AX_numpy_ones")
 def lib_deepcopy(eng, st, args, kw, node):
     """copy.deepcopy of an immutable scalar is the value itself; of a flat sequence of scalars a fresh sequence with the same elements"""
     v = args[0]
